@@ -59,7 +59,10 @@ def check(ctx):
     if len(decl_fields) < 7:
         run.error('C14.containers', fc.module.name, 'FileContents', 'declaration containers',
                   f'only {len(decl_fields)} declaration containers found in FileContents (7 confirmed)')
+    semantic = _lookup_semantics(ctx, decl_fields)
     for fname in ('find_fqn', 'find_any'):
+        if fname in semantic:
+            continue            # decided on the whole small universe by interpretation (below)
         conts, loop = find_containers(ctx, fname)
         names = [c[0] for c in conts]
         fn = prog.func('ast_view', fname)
@@ -81,7 +84,8 @@ def check(ctx):
             f'valid_types {valid_names} differs from the ast declaration classes {decl_classes}')
 
     # ---- C14.once ----------------------------------------------------------------------------------------------------------
-    _once_rule(ctx)
+    if 'find_fqn' not in semantic:
+        _once_rule(ctx)
 
     # ---- C14.order -----------------------------------------------------------------------------------------------------------
     mut = Mutations(prog, cg)
@@ -93,6 +97,152 @@ def check(ctx):
 
     # ---- C14.notation ----------------------------------------------------------------------------------------------------------
     _notation_rule(ctx, charset)
+
+
+def _every_identifier_checked(ctx, nids: ClassInfo) -> Optional[List[str]]:
+    from ..scenario import Interp, Raised, Undecided
+    import itertools
+    prog = ctx.prog
+    err = prog.classes.get('dznpy.scoping.NamespaceIdsTypeError')
+    good = ['ok', 'x1', '_y']
+    bad = ['', '1a', 'a b', 'a-b', 'a\n', '\u00e9', 'a.b', 'a::b', ' a']
+    problems: List[str] = []
+    try:
+        for n in (1, 2, 3):
+            for pos in range(n):
+                for b in bad:
+                    items = [good[i % len(good)] for i in range(n)]
+                    items[pos] = b
+                    try:
+                        Interp(prog).construct(nids, [list(items)], {})
+                        problems.append(f'{items!r} is accepted')
+                    except Raised as exc:
+                        c = prog.classes.get(exc.name)
+                        if not (c is not None and err is not None and (c is err or prog.is_subclass(c.fq, err.fq))):
+                            problems.append(f'{items!r} raises {exc.name.split(".")[-1]}, not NamespaceIdsTypeError')
+            items = [good[i % len(good)] for i in range(n)]
+            try:
+                Interp(prog).construct(nids, [list(items)], {})
+            except Raised as exc:
+                problems.append(f'the well-formed {items!r} is refused ({exc.name.split(".")[-1]})')
+        try:
+            Interp(prog).construct(nids, [[]], {})
+        except Raised as exc:
+            problems.append(f'the empty list is refused ({exc.name.split(".")[-1]})')
+    except Undecided:
+        return None
+    return problems
+
+
+def _lookup_semantics(ctx, decl_fields: List[str]) -> Set[str]:
+    """find_fqn / find_any interpreted (dznverif.scenario, E6) on a small universe: a FileContents that holds, spread over its
+    declaration containers (and, as decoys, over filenames / imports), one declaration for every fully qualified name of one
+    to three identifiers over {a, b} - two of them twice, in different containers - looked up with every name of one or two
+    identifiers from every calling scope of zero to two identifiers (none as well).  Expected (the statement of C14):
+      find_fqn   exactly the declarations whose fqn is scope[:k] + name for some k, each once, never a file name / import
+      find_any   exactly the declarations whose fqn ends with the given identifiers, each once
+    The functions look at identifiers only through equality of identifier lists, so every pattern of equal / different
+    names that can occur along a scope chain of this depth occurs here.  Returns the names of the functions that were decided
+    this way (their findings are recorded); a function that cannot be interpreted is left to the shape rules."""
+    from ..scenario import Interp, Obj, Raised, Undecided
+    import itertools
+    run, prog = ctx.run, ctx.prog
+    nids = prog.cls('scoping', 'NamespaceIds')
+    fc = prog.cls('ast', 'FileContents')
+    fields = prog.class_fields(fc)
+    decided: Set[str] = set()
+    it = Interp(prog)
+    it.MAX_STEPS = 4000000
+
+    def ids(seq):
+        return it.construct(nids, [list(seq)], {})
+
+    def elem_cls(field: str):
+        t = prog.ann_to_type(fc.module, fields[field][0], fc)
+        return prog.classes.get(t[1][1]) if t[0] == 'list' and t[1][0] == 'cls' else None
+    try:
+        fqns = [seq for n in (1, 2, 3) for seq in itertools.product('ab', repeat=n)]
+        contents: Dict[str, list] = {f: [] for f in fields}
+        decls = []          # (Obj, fqn tuple)
+        cyc = itertools.cycle(sorted(decl_fields))
+        for seq in fqns + [('a', 'b'), ('b',)]:
+            f = next(cyc)
+            c = elem_cls(f)
+            if c is None:
+                return decided
+            o = Obj(c, {'fqn': ids(seq)})
+            contents[f].append(o)
+            decls.append((o, seq))
+        for f in fields:
+            if f not in decl_fields:
+                c = elem_cls(f)
+                if c is not None:
+                    contents[f].append(Obj(c, {'name': 'decoy.dzn', 'fqn': ids(('a',))}))
+        fct = Obj(fc, {k: v for k, v in contents.items()})
+    except (Raised, Undecided):
+        return decided
+    names = [seq for n in (1, 2) for seq in itertools.product('ab', repeat=n)]
+    scopes = [None] + [seq for n in (0, 1, 2) for seq in itertools.product('ab', repeat=n)]
+
+    def judge(fname: str, calls, expect) -> None:
+        fn = prog.func('ast_view', fname)
+        bad: List[str] = []
+        n = 0
+        try:
+            for args, label in calls:
+                n += 1
+                try:
+                    res = it.call_function(fn, [fct] + args, {})
+                except Raised as exc:
+                    bad.append(f'{label}: raises {exc.name.split(".")[-1]}')
+                    continue
+                items = res.fields.get('items') if isinstance(res, Obj) else None
+                if not isinstance(items, list):
+                    raise Undecided('result is not a FindResult with items')
+                want = expect(*args)
+                got_ids = [id(x) for x in items]
+                want_ids = [id(o) for o, _s in want]
+                if sorted(got_ids) != sorted(want_ids):
+                    def show(objs):
+                        return sorted('.'.join(s_) for o_, s_ in decls if id(o_) in objs)
+                    extra = [x for x in items if id(x) not in want_ids]
+                    dup = len(got_ids) != len(set(got_ids))
+                    bad.append(f'{label}: returns {show(got_ids)}' + (' (a declaration twice)' if dup else '') +
+                               (f' and {len([x for x in extra if not any(x is o for o, _ in decls)])} file name / import entries'
+                                if any(not any(x is o for o, _ in decls) for x in extra) else '') + f', expected {show(want_ids)}')
+        except Undecided as exc:
+            run.remark(f'C14: {fname} could not be interpreted on the lookup scenarios ({exc}); the shape rules decide')
+            return
+        decided.add(fname)
+        for rule_ in ('C14.containers', 'C14.once'):
+          run.add(rule_, fn.module.name, fn.qualname, f'{fname}: {n} lookups over {len(decls)} declarations', not bad,
+                (f'{fname} returns exactly the declarations on the scope chain, each once, never a file name or import '
+                 f'(interpreted on {n} lookups)' if fname == 'find_fqn' else
+                 f'{fname} returns exactly the declarations whose name ends with the identifiers, each once ({n} lookups)') if not bad
+                else f'{len(bad)} of {n} lookups disagree, e.g. ' + '; '.join(bad[:2]))
+        run.stats.setdefault('lookup_scenarios', {})[fname] = n
+
+    def chain_expect(name_obj, scope_obj=None):
+        nm = tuple(name_obj.fields['items'])
+        sc = tuple(scope_obj.fields['items']) if scope_obj is not None else ()
+        cands = {sc[:k] + nm for k in range(len(sc), -1, -1)}
+        return [(o, s_) for o, s_ in decls if s_ in cands]
+
+    def suffix_expect(suffix_obj):
+        sf = tuple(suffix_obj.fields['items'])
+        return [(o, s_) for o, s_ in decls if len(s_) >= len(sf) and s_[len(s_) - len(sf):] == sf]
+    try:
+        calls = []
+        for nm in names:
+            for sc in scopes:
+                args = [ids(nm)] + ([ids(sc)] if sc is not None else [])
+                calls.append((args, f"find_fqn('{'.'.join(nm)}', from {('.'.join(sc) or '<global>') if sc is not None else None})"))
+        judge('find_fqn', calls, chain_expect)
+        calls = [([ids(nm)], f"find_any('{'.'.join(nm)}')") for nm in names + [('a', 'b', 'a')]]
+        judge('find_any', calls, suffix_expect)
+    except (Raised, Undecided):
+        pass
+    return decided
 
 
 def _once_rule(ctx):
@@ -429,7 +579,16 @@ def _valid_ids_rule(ctx, mut: Mutations) -> Optional[Set[str]]:
             run.violation('C14.valid-ids', post.module.name, post.qualname, c,
                           f're.{fn_name} does not anchor the end of the identifier exactly ("$" also matches before a '
                           f'trailing newline; search matches anywhere): invalid identifiers are accepted', node=c)
-        # applied to every identifier: inside a plain loop over self.items, failure raises
+        # applied to every identifier, failure raises: decided by interpreting the constructor (E6) on lists of one to three
+        # strings with a malformed one at every position; the shape test below only when that is not possible
+        sem_every = _every_identifier_checked(ctx, nids)
+        if sem_every is not None:
+            bad_ = sem_every
+            run.add('C14.valid-ids', post.module.name, post.qualname, 'every identifier is validated', not bad_,
+                    'a malformed identifier at any position of the list makes the constructor raise NamespaceIdsTypeError, well-formed '
+                    'lists are accepted (constructor interpreted on lists of 1-3 strings)' if not bad_ else
+                    'the validation does not cover every identifier: ' + '; '.join(bad_[:3]), node=c)
+            continue
         loop = ctx.flow.enclosing(c, (ast.For,))
         ok = loop is not None and ast.unparse(loop.iter) == 'self.items' and isinstance(loop.target, ast.Name) and \
             subj_e is not None and ast.unparse(subj_e) == loop.target.id
